@@ -35,13 +35,6 @@ def SigOk (sig : CarveSig) : Prop :=
     Regex.genSignature simplified false = .ok pf ∧ Regex.genSignature simplified true = .ok pp ∧
     sig.numberOfColumns = simplified.length
 
-/-- FULL STATEMENT (still false of the code): carving a free region always completes -/
-def CompletesFull : Prop :=
-  ∀ (sig : CarveSig), SigOk sig → ∀ (ps pn po rs : Nat) (data : Buf), data.WF →
-    (∃ cells, carveUnallocated sig ps pn po rs data = .ok cells) ∧
-    (∀ (fbStart : Nat), ∃ cells,
-      carveFreeblocks sig ps [⟨pn, 0, fbStart, fbStart + 4, data.size + 4, data, po⟩] = .ok cells)
-
 /-- two one-byte-integer columns, region `01 01 05 06 00 01 01 07 08`: a full match at offset 0 and a
 second one -/
 def sig11 : CarveSig := ⟨2, 5, [[1], [1]], [], [[(1, 5, 5)], [(1, 5, 5)]]⟩
@@ -86,10 +79,11 @@ theorem fixed_error_object :
       cells.length = 1 := by
   apply of_okLen; decide +kernel
 
-/-- the remaining escape (`ord(b'')` in decode_varint): single NULL column, freeblock content `02 c0` -/
-theorem witness_ord_empty :
-    carveFreeblocks sig0 65536 [⟨2, 0, 8, 12, 6, Buf.ofList [2, 0xc0], 65536⟩] = .error .typeError := by
-  apply of_errOf; decide +kernel
+/-- the input of the former `ord()` escape (single NULL column, freeblock content `02 c0`) now carves -/
+theorem fixed_ord_empty :
+    ∃ cells, carveFreeblocks sig0 65536 [⟨2, 0, 8, 12, 6, Buf.ofList [2, 0xc0], 65536⟩] = .ok cells ∧
+      cells.length = 2 := by
+  apply of_okLen; decide +kernel
 
 theorem sigOk_sig11 : SigOk sig11 :=
   ⟨[1], [[1], [1]], .seq [.lit 1, .lit 1], .seq [.lit 1], rfl, rfl, rfl, rfl⟩
@@ -97,20 +91,6 @@ theorem sigOk_sig11 : SigOk sig11 :=
 theorem dataNone_WF : dataNone.WF := by
   apply Codec.ofList_WF
   decide
-
-theorem sigOk_sig0 : SigOk sig0 :=
-  ⟨[0], [[0]], .seq [.lit 0], .seq [], rfl, rfl, rfl, rfl⟩
-
-theorem completes_counterexample : ¬ CompletesFull := by
-  intro h
-  have hwf : (Buf.ofList [2, 0xc0]).WF := by
-    apply Codec.ofList_WF
-    decide
-  obtain ⟨_, hfb⟩ := h sig0 sigOk_sig0 65536 2 65536 0 (Buf.ofList [2, 0xc0]) hwf
-  obtain ⟨cells, hc⟩ := hfb 8
-  have hsz : (Buf.ofList [2, 0xc0]).size + 4 = 6 := by decide
-  rw [hsz, witness_ord_empty] at hc
-  cases hc
 
 theorem uncarvedLoop_some (len n : Nat) : ∀ (ms : List (Nat × Nat)) (idx : Nat) (last : Option Nat),
     idx ≠ 0 → last.isSome = true → ∀ iv ∈ uncarvedLoop len n ms idx last, iv.1.isSome = true := by
@@ -801,6 +781,7 @@ theorem reconstructFirst_none (i : RecIn) (a b : Nat) (r : Option PreCol) (hfc :
     · split at h
       · cases h; rfl
       · simp only at h
+        obtain ⟨_, _, h⟩ := bind_ok h
         obtain ⟨⟨_, n⟩, _, h⟩ := bind_ok h
         simp only at h
         split at h <;> cases h
@@ -1494,8 +1475,13 @@ theorem fromFreeblockSize_NEC (fc : List Int) (fb : Int) (a b : Nat) : NEC (from
   apply NEC_bind (matchingTypes_NEC _ _); intro ms
   split <;> ne_leaf
 
+theorem precedingByteGuard_NEC (data : Buf) (at_ : Nat) : NEC (precedingByteGuard data at_) := by
+  unfold precedingByteGuard
+  repeat' (first | apply NEC_ite | ne_leaf)
+
 theorem fromPrecedingByte_NEC (fc : List Int) (data : Buf) (at_ : Nat) : NEC (fromPrecedingByte fc data at_) := by
   unfold fromPrecedingByte
+  apply NEC_bind (precedingByteGuard_NEC _ _); intro _
   apply NEC_bind (NEC_liftPy (decodeVarint_NE _ _)); intro p
   simp only
   repeat' (first | apply NEC_ite | ne_leaf | (apply NEC_bind (contentSize_NEC _); intro sz))
@@ -1514,7 +1500,8 @@ theorem reconstructFirst_NEC (i : RecIn) (a b : Nat) : NEC (reconstructFirst i a
       · ne_leaf
       · split
         · exact fromPrecedingByte_NEC _ _ _
-        · apply NEC_bind (NEC_liftPy (decodeVarint_NE _ _)); intro p
+        · apply NEC_bind (precedingByteGuard_NEC _ _); intro _
+          apply NEC_bind (NEC_liftPy (decodeVarint_NE _ _)); intro p
           simp only
           apply NEC_ite <;> ne_leaf
       · ne_leaf
